@@ -383,6 +383,9 @@ type versions struct {
 
 func (v *versions) record(before, after *world) {
 	for _, n := range before.Nodes {
+		if n.NoPid { // only equivalent for the model while the world has no recorded claim / instance: never replayed later
+			continue
+		}
 		if m := after.node(n.ID); m == nil || *m != *n {
 			c := *n
 			v.node[n.ID] = &c
